@@ -190,6 +190,15 @@ func verifH_C06_stream() {
 
 	// reference receiver
 	owned := map[uint16]bool{} // exactly-once identifiers between delivery and PUBREL
+	// a delivery cycle left open by an earlier connection or process: the
+	// marker of an arbitrary identifier is in the Persistence already
+	if verifParam("preowned", 0) == 1 {
+		pid := verifU16("preowned")
+		verifAssume(pid != 0)
+		err := rugged.Save(uint(pid)|remoteIDKeyFlag, net.Buffers{[]byte{typePUBREC << 4, 2, byte(pid >> 8), byte(pid)}})
+		verifAssert(err == nil, "harness: marker save")
+		owned[pid] = true
+	}
 	var wantAcks []byte
 	next := 0 // index of the next packet the reference expects to be handled
 	deliveries := 0
